@@ -556,6 +556,133 @@ func c02CopierStateFresh(c *Ctx, cp *copier, rule string) {
 		}
 		c.check(okAll && nRet > 0, rule, relName(f), f.Pos(), "returns a struct allocated by this call with freshly made memo maps", "the constructor does not return a freshly allocated instance with fresh memo maps ("+why+"): memo state can survive from one copy / stack to the next")
 	}
+	c02CopierPerUse(c, cp, rule)
+}
+
+// c02CopierPerUse: wherever a copy is started from outside the copier - a deepCopier method called by a function
+// that is not itself a method of deepCopier - the copier is one constructed for that use: the result of
+// newDeepCopier() / the dc of a newOverlayer() made in the same function and, inside a loop, in the same iteration;
+// for a parameter (or a receiver), at every call site. A copier kept across calls (a long-lived variable, a field,
+// one made before a loop) carries its memo maps from one copy into the next.
+func c02CopierPerUse(c *Ctx, cp *copier, rule string) {
+	w := c.W
+	cg := w.callGraph()
+	newO := w.fn("", "newOverlayer")
+	isCopierMethod := func(f *ssa.Function) bool {
+		f = origin(f)
+		return f.Signature.Recv() != nil && namedTypeName(f.Signature.Recv().Type()) == ".deepCopier"
+	}
+	type key struct {
+		v    ssa.Value
+		site ssa.Instruction
+	}
+	visiting := map[key]bool{}
+	var fresh func(v ssa.Value, site ssa.Instruction, depth int) (bool, string)
+	sameIteration := func(def ssa.Instruction, site ssa.Instruction) bool {
+		if !inLoop(site) {
+			return true
+		}
+		entry := loopBodyEntry(site.Block())
+		return entry != nil && (entry == def.Block() || entry.Dominates(def.Block()))
+	}
+	fresh = func(v ssa.Value, site ssa.Instruction, depth int) (bool, string) {
+		v = stripConv(v)
+		k := key{v, site}
+		if visiting[k] {
+			return true, "" // a cycle of pass-through parameters: decided by the other call sites
+		}
+		if depth > 6 {
+			return false, "the copier's origin is too far away to follow"
+		}
+		visiting[k] = true
+		defer delete(visiting, k)
+		switch x := v.(type) {
+		case *ssa.Call:
+			callee := staticCallee(x)
+			if callee != nil && (origin(callee) == origin(cp.newC) || (newO != nil && origin(callee) == origin(newO))) {
+				if x.Parent() == site.Parent() && sameIteration(x, site) {
+					return true, ""
+				}
+				return false, "it is constructed once, before the loop that uses it: every use after the first starts with the memo maps of the earlier ones"
+			}
+			return false, "it is the result of " + calleeFullName(x)
+		case *ssa.UnOp:
+			if x.Op == token.MUL {
+				if fa, ok := x.X.(*ssa.FieldAddr); ok && namedTypeName(fa.X.Type()) == ".overlayer" {
+					return fresh(fa.X, site, depth+1)
+				}
+				if fa, ok := x.X.(*ssa.FieldAddr); ok {
+					return false, "it is kept in the field " + fieldName(fa.X.Type(), fa.Field)
+				}
+				if _, ok := x.X.(*ssa.Global); ok {
+					return false, "it is kept in a package variable"
+				}
+			}
+		case *ssa.Alloc:
+			if x.Parent() == site.Parent() && sameIteration(x, site) {
+				return true, ""
+			}
+			return false, "it is allocated once, before the loop that uses it"
+		case *ssa.Parameter:
+			f := x.Parent()
+			pi := -1
+			for i, p := range f.Params {
+				if p == x {
+					pi = i
+				}
+			}
+			edges := cg.in[origin(f)]
+			n := 0
+			for _, e := range edges {
+				if e.Site == nil || e.Kind == "closure" {
+					continue
+				}
+				args := e.Site.Common().Args
+				if pi >= len(args) {
+					continue
+				}
+				n++
+				if ok, why := fresh(args[pi], e.Site.(ssa.Instruction), depth+1); !ok {
+					return false, why + " (passed by " + relName(e.From) + ")"
+				}
+			}
+			if n == 0 || cg.escapes[origin(f)] {
+				return false, "it is a parameter of a function whose callers cannot all be seen"
+			}
+			return true, ""
+		case *ssa.Phi:
+			for _, e := range x.Edges {
+				if ok, why := fresh(e, site, depth+1); !ok {
+					return false, why
+				}
+			}
+			return true, ""
+		}
+		return false, "its origin is " + canon(v)
+	}
+	n := 0
+	for _, f := range w.funcsIn("") {
+		if isCopierMethod(f) || len(f.Blocks) == 0 {
+			continue
+		}
+		for _, i := range allInstrs(f) {
+			ci, ok := i.(*ssa.Call)
+			if !ok {
+				continue
+			}
+			callee := staticCallee(ci)
+			if callee == nil || !isCopierMethod(callee) {
+				continue
+			}
+			n++
+			okF, why := fresh(ci.Call.Args[0], ci, 0)
+			c.check(okF, rule, relName(f)+"#use-"+callee.Name(), ci.Pos(), "the copy starts on a copier constructed for this use",
+				"a copy is started on a copier that was not constructed for this use: "+why+", so pointers and maps of an earlier input resolve to parts of an earlier output")
+		}
+	}
+	if n == 0 {
+		c.bad(rule, "copier#uses", 0, "no copy is ever started from outside the copier")
+	}
 }
 
 // c03SamePointerInstalled: in the leaf overlay, a nil pointer field of the base whose pointee type equals the
